@@ -121,23 +121,23 @@ def run(pid, tier, replay):
         raise core.ToolError("MC_MatchSem emitted no case")
     chk.add_tlc(g)
     chk.add("mc_states", g.distinct)
-    obs = chk.path("obs_enum.ndjson")
+    obs = chk.path("obs.ndjson")
     core.run_bin(binp, ["match-obs", cases, obs])
-    out, lines = validate(chk, "MatchCheck", obs, shards=12)
-    if len(lines) != n:
-        raise core.ToolError("harness answered %d of %d cases" % (len(lines), n))
-    classify(chk, out["MISMATCH"], lines)
-    chk.add("enumerated_cases", n)
-    chk.cov["exhaustive"] = True
-    total = list(lines)
-    # impl -> spec: seeded random rules with near-miss messages
-    nr = 3000 if quick else 120000
+    if sum(1 for _ in open(obs)) != n:
+        raise core.ToolError("harness answered fewer lines than the %d cases" % n)
+    # impl -> spec: seeded random rules with near-miss messages, validated together with the enumerated pairs
+    nr = 4000 if quick else 120000
     robs = chk.path("obs_rand.ndjson")
     core.run_bin(binp, ["match-rand", nr, chk.seed, robs])
-    out, lines = validate(chk, "MatchCheck", robs, shards=12)
+    with open(obs, "a") as f, open(robs) as g2:
+        for line in g2:
+            f.write(line)
+    out, lines = validate(chk, "MatchCheck", obs, shards=6 if quick else 14)
     classify(chk, out["MISMATCH"], lines)
-    chk.add("random_cases", len(lines))
-    total += lines
+    chk.add("enumerated_cases", n)
+    chk.add("random_cases", len(lines) - n)
+    chk.cov["exhaustive"] = True
+    total = lines
     objs = [json.loads(x) for x in total[:400000]]
     chk.cov["evaluations"] = len(total)
     chk.cov["matched"] = sum(1 for o in objs if o.get("got") == "true")
@@ -146,7 +146,7 @@ def run(pid, tier, replay):
         raise core.ToolError("vacuous run: every observed verdict was the same")
     chk.cov["distinct_nontrivial"] = core.distinct_count([o for o in objs if nontrivial(o)],
                                                          lambda o: json.dumps([o["rule"], o["msg"]], sort_keys=True))
-    chk.cov["rule"] = ("cases = TLC-enumerated (rule, message) pairs (Gen_Match: rules with <= %d keys x all values of the message "
+    chk.cov["rule"] = ("cases = TLC-enumerated (rule, message) pairs (Gen_Match: rules with <= %d keys [the largest size over reduced value sets] x all values of the message "
                        "dimensions the keys look at) plus seeded random rules with near-miss messages; distinct by (rule, message); "
                        "non-trivial = rule has >= 2 keys or a path_namespace / argN / argNpath / arg0namespace key" % (2 if quick else 3))
     for o in objs[:2] + objs[-3:]:
